@@ -1021,8 +1021,11 @@ func runC19(c *hx.Ctx) error {
 	if os.Getenv("VERIF_REPO") != "" {
 		res.Notes = append(res.Notes, "built against "+filepath.Clean(os.Getenv("VERIF_REPO")))
 	}
-	if os.Getenv("VERIF_C19_STREAM") == "runs" { // (debugging aid: the run-histories stream alone)
+	switch os.Getenv("VERIF_C19_STREAM") { // (debugging aid: one of the later streams alone)
+	case "runs":
 		return runHistories(c)
+	case "policy":
+		return runPolicies(c)
 	}
 	n := c.N(4000, 60000)
 	cases := make([]*caseSpec, n)
@@ -1092,5 +1095,8 @@ func runC19(c *hx.Ctx) error {
 			}
 		}
 	}
-	return runHistories(c)
+	if err := runHistories(c); err != nil {
+		return err
+	}
+	return runPolicies(c)
 }
